@@ -828,7 +828,7 @@ Lemma set_values_map (g : nat * gfield -> value) (h : nat * gfield -> gval) l : 
   (forall p, In p l -> reflect_to (f_ty (snd p)) (g p) = Ok (h p)) ->
   set_values l (map g l) acc = Ok (fold_left (fun acc p => set_nth (fst p) (h p) acc) l acc).
 Proof.
-  induction l as [|p l IH]; intros acc H; cbn [map set_values fold_left]; [reflexivity|].
+  induction l as [|p l IH]; intros acc H; cbn [map set_values fold_left tl]; [reflexivity|].
   rewrite (H p (or_introl eq_refl)). cbn [rbind]. apply IH. intros q Hq. apply H. right; exact Hq.
 Qed.
 
@@ -866,6 +866,12 @@ Proof.
     destruct p; cbn [set_addr inst]; try reflexivity;
     match goal with |- inst _ _ = inst _ ?v => exact (IHt v) end.
 Qed.
+
+Lemma required_le_order fs : (required_count fs <= length (attr_order fs))%nat.
+Proof. unfold required_count, attr_order. rewrite app_length. lia. Qed.
+
+Lemma args_ok_nil order : args_ok order [] = true.
+Proof. destruct order; reflexivity. Qed.
 
 Section ObjectRoundTrip.
   Variable ffmt : Z -> str.
@@ -927,6 +933,7 @@ Section ObjectRoundTrip.
       - apply (Forall2_nth_ok _ _ _ GVOutside dflt_field HT). exact Hi.
       - apply (Forall2_nth_ok _ _ _ GVOutside dflt_field HO). exact Hi. }
     unfold obj_new, obj_gets. fold g.
+    rewrite map_length. rewrite (proj2 (Nat.leb_le _ _) (required_le_order fs)). cbn [andb].
     rewrite args_ok_map.
     - rewrite (set_values_map g h).
       + cbn [rbind]. unfold h. rewrite fold_set_nth_all; [reflexivity|exact Hlen|apply map_length].
@@ -936,5 +943,204 @@ Section ObjectRoundTrip.
     - intros p Hp. destruct (Hfield p Hp) as [H1 H2]. unfold g, attr_ty. apply field_accepts; [exact H1|].
       unfold field_ok in H2. destruct (is_iface (f_ty (snd p))); [reflexivity|].
       cbn [orb] in *. apply andb_true_iff in H2 as [_ H2]. exact H2.
+  Qed.
+
+  (* ---- used destinations: whatever the destination held, and after any sequence of earlier conversions *)
+
+  Theorem roundtrip_used_destination t v d (hist : list value) :
+    has_type v t = true -> rt_ok true t v = true ->
+    reflect_into t (reflect_hist t d hist) (wrap ffmt t v) = Ok v /\
+    reflect_hist t d (hist ++ [wrap ffmt t v]) = v.
+  Proof.
+    intros Ht Hok. pose proof (roundtrip ffmt v t Ht Hok) as R. split.
+    - unfold reflect_into. exact R.
+    - unfold reflect_hist. rewrite fold_left_app. cbn [fold_left]. unfold dest_after, reflect_into. rewrite R. reflexivity.
+  Qed.
+
+  (* ---- declared defaults: positional arguments without the trailing defaults, and the init hash *)
+
+  Lemma attr_has_value_default f :
+    attr_has_value f = match attr_default f with Some _ => true | None => false end.
+  Proof. unfold attr_has_value, attr_default. destruct (f_tvalue f); [reflexivity|]. destruct (is_ptr_ty (f_ty f)); reflexivity. Qed.
+
+  Lemma default_eqb_eq d v :
+    default_eqb d v = true -> match d with VFloat b => f_is_zero b = false | _ => True end -> v = d.
+  Proof.
+    intros H Hz. destruct d, v; cbn [default_eqb] in H; try discriminate H; try reflexivity.
+    - apply eqb_prop in H. congruence.
+    - apply Z.eqb_eq in H. congruence.
+    - unfold f_eq in H. rewrite Hz in H. cbn [andb] in H. rewrite orb_false_r in H.
+      apply andb_true_iff in H as [_ H]. apply Z.eqb_eq in H. congruence.
+    - apply str_eqb_eq in H. congruence.
+  Qed.
+
+  Lemma is_default_eq fs f v :
+    defaults_ok fs = true -> In f fs -> is_default f v = true -> v = default_or_undef f.
+  Proof.
+    intros Hd Hin H. unfold is_default, default_or_undef in *. destruct (attr_default f) as [d|] eqn:Ed; [|discriminate H].
+    apply default_eqb_eq; [exact H|].
+    unfold attr_default in Ed. unfold defaults_ok in Hd. rewrite forallb_forall in Hd. specialize (Hd f Hin).
+    destruct (f_tvalue f) as [[z|s0|b|b]|].
+    - injection Ed as <-. exact I.
+    - injection Ed as <-. exact I.
+    - injection Ed as <-. exact I.
+    - injection Ed as <-. cbn [lit_value]. apply negb_true_iff in Hd. exact Hd.
+    - destruct (is_ptr_ty (f_ty f)); [injection Ed as <-; exact I|discriminate Ed].
+  Qed.
+
+  Lemma attr_order_field fs p : In p (attr_order fs) -> In (snd p) fs.
+  Proof.
+    intros Hp. apply attr_order_in, indexed_fields_in in Hp as [Hi Ef]. rewrite Ef. apply nth_In. exact Hi.
+  Qed.
+
+  Lemma set_values_cut order : forall va i req acc,
+    (forall p v, In p order -> is_default (snd p) v = true -> v = default_or_undef (snd p)) ->
+    length va = length order ->
+    set_values order (cut_defaults i req order va) acc = set_values order va acc.
+  Proof.
+    induction order as [|p order IH]; intros [|v va] i req acc HD Hl; cbn [length] in Hl; try discriminate Hl; [reflexivity|].
+    assert (IH' : forall acc', set_values order (cut_defaults (S i) req order va) acc' = set_values order va acc').
+    { intros acc'. apply IH; [|lia]. intros q w Hq. apply HD. right; exact Hq. }
+    cbn [cut_defaults]. destruct (cut_defaults (S i) req order va) as [|r0 r] eqn:Ec.
+    - destruct ((req <=? i)%nat && is_default (snd p) v) eqn:Ed.
+      + apply andb_true_iff in Ed as [_ Ed]. apply HD in Ed; [|left; reflexivity]. subst v.
+        cbn [set_values tl]. destruct (reflect_to (f_ty (snd p)) (default_or_undef (snd p))); cbn [rbind]; try reflexivity.
+        apply IH'.
+      + cbn [set_values tl]. destruct (reflect_to (f_ty (snd p)) v); cbn [rbind]; try reflexivity. apply IH'.
+    - cbn [set_values tl]. destruct (reflect_to (f_ty (snd p)) v); cbn [rbind]; try reflexivity. apply IH'.
+  Qed.
+
+  Lemma args_ok_cut order : forall va i req,
+    args_ok order va = true -> args_ok order (cut_defaults i req order va) = true.
+  Proof.
+    induction order as [|p order IH]; intros [|v va] i req H; cbn [cut_defaults]; try reflexivity.
+    cbn [args_ok] in H. apply andb_true_iff in H as [H1 H2].
+    pose proof (IH va (S i) req H2) as IH'.
+    destruct (cut_defaults (S i) req order va) as [|r0 r] eqn:Ec.
+    - destruct ((req <=? i)%nat && is_default (snd p) v); [reflexivity|].
+      cbn [args_ok]. rewrite H1, args_ok_nil. reflexivity.
+    - cbn [args_ok]. rewrite H1. cbn [andb]. exact IH'.
+  Qed.
+
+  Lemma cut_length order : forall va i req,
+    length va = length order -> (req - i <= length va)%nat ->
+    (req - i <= length (cut_defaults i req order va))%nat.
+  Proof.
+    induction order as [|p order IH]; intros [|v va] i req Hl Hr; cbn [length] in *; try discriminate Hl; cbn [cut_defaults].
+    - exact Hr.
+    - assert (IH' : (req - S i <= length (cut_defaults (S i) req order va))%nat) by (apply IH; lia).
+      destruct (cut_defaults (S i) req order va) as [|r0 r] eqn:Ec.
+      + destruct ((req <=? i)%nat && is_default (snd p) v) eqn:Ed; cbn [length] in *.
+        * apply andb_true_iff in Ed as [Ed _]. apply Nat.leb_le in Ed. lia.
+        * lia.
+      + cbn [length] in *. lia.
+  Qed.
+
+  (* what struct_object_roundtrip says about the two steps of obj_new *)
+  Lemma obj_new_full_steps a n fs vs :
+    has_type (GVStruct vs) (GStruct n fs) = true -> obj_ok fs vs = true ->
+    args_ok (attr_order fs) (obj_gets ffmt a fs vs) = true /\
+    set_values (attr_order fs) (obj_gets ffmt a fs vs) (map (fun f => zero_of (f_ty f)) fs) = Ok vs.
+  Proof.
+    intros Ht Hok. destruct (struct_object_roundtrip a n fs vs Ht Hok) as [H _].
+    unfold obj_new in H.
+    destruct ((required_count fs <=? length (obj_gets ffmt a fs vs))%nat && args_ok (attr_order fs) (obj_gets ffmt a fs vs)) eqn:E;
+      [|discriminate H].
+    apply andb_true_iff in E as [_ E]. split; [exact E|].
+    destruct (set_values _ _ _) as [vs'| |]; cbn [rbind] in H; try discriminate H. congruence.
+  Qed.
+
+  Theorem struct_object_trailing_defaults a n fs vs :
+    has_type (GVStruct vs) (GStruct n fs) = true -> obj_ok fs vs = true -> defaults_ok fs = true ->
+    obj_new n fs (cut_defaults 0 (required_count fs) (attr_order fs) (obj_gets ffmt a fs vs)) = Ok (VObj n true (GVStruct vs)).
+  Proof.
+    intros Ht Hok Hd. destruct (obj_new_full_steps a n fs vs Ht Hok) as [Ha Hs].
+    assert (Hlen : length (obj_gets ffmt a fs vs) = length (attr_order fs)) by (unfold obj_gets; apply map_length).
+    unfold obj_new. rewrite args_ok_cut by exact Ha.
+    assert (Hc : (required_count fs <=? length (cut_defaults 0 (required_count fs) (attr_order fs) (obj_gets ffmt a fs vs)))%nat = true).
+    { apply Nat.leb_le. pose proof (cut_length (attr_order fs) (obj_gets ffmt a fs vs) 0 (required_count fs) Hlen) as Hc.
+      pose proof (required_le_order fs). lia. }
+    rewrite Hc. cbn [andb]. rewrite set_values_cut; [rewrite Hs; reflexivity| |exact Hlen].
+    intros p v Hp. apply (is_default_eq fs); [exact Hd|]. apply attr_order_field. exact Hp.
+  Qed.
+
+  Lemma hash_get_cons_eq k v h : hash_get k ((VStr k, v) :: h) = Some v.
+  Proof. unfold hash_get. cbn [find fst]. rewrite str_eqb_refl. reflexivity. Qed.
+
+  Lemma hash_get_cons_neq k k' v h : k' <> k -> hash_get k ((VStr k', v) :: h) = hash_get k h.
+  Proof. intros Hne. unfold hash_get. cbn [find fst]. apply str_eqb_neq in Hne. rewrite Hne. reflexivity. Qed.
+
+  Section InitHash.
+    Variable g : nat * gfield -> value.
+    Let F := fun p : nat * gfield => if is_default (snd p) (g p) then [] else [(VStr (attr_name (snd p)), g p)].
+    Let nm := fun p : nat * gfield => attr_name (snd p).
+
+    Lemma hash_get_absent k l : ~ In k (map nm l) -> hash_get k (flat_map F l) = None.
+    Proof.
+      induction l as [|q l IH]; intros Hn; [reflexivity|]. cbn [flat_map map] in *.
+      assert (Hq : nm q <> k) by (intros E; apply Hn; left; exact E).
+      assert (Hl : ~ In k (map nm l)) by (intros E; apply Hn; right; exact E).
+      unfold F at 1. destruct (is_default (snd q) (g q)); cbn [app].
+      - apply IH. exact Hl.
+      - rewrite hash_get_cons_neq by exact Hq. apply IH. exact Hl.
+    Qed.
+
+    Lemma hash_get_flat_map l : NoDup (map nm l) -> forall p, In p l ->
+      hash_get (nm p) (flat_map F l) = if is_default (snd p) (g p) then None else Some (g p).
+    Proof.
+      induction l as [|q l IH]; intros Hnd p Hin; [destruct Hin|]. cbn [map] in Hnd.
+      apply NoDup_cons_iff in Hnd as [Hq Hnd]. cbn [flat_map]. destruct Hin as [<-|Hin].
+      - unfold F at 1. destruct (is_default (snd q) (g q)); cbn [app].
+        + apply hash_get_absent. exact Hq.
+        + apply hash_get_cons_eq.
+      - assert (Hne : nm q <> nm p) by (intros E; apply Hq; rewrite E; apply in_map; exact Hin).
+        unfold F at 1. destruct (is_default (snd q) (g q)); cbn [app].
+        + apply IH; assumption.
+        + rewrite hash_get_cons_neq by exact Hne. apply IH; assumption.
+    Qed.
+
+    Lemma init_hash_keys l :
+      forallb (fun e => match fst e with
+                        | VStr k => existsb (fun p => str_eqb (attr_name (snd p)) k) l
+                        | _ => false
+                        end) (flat_map F l) = true.
+    Proof.
+      apply forallb_forall. intros e He. apply in_flat_map in He as [p [Hp He]]. unfold F in He.
+      destruct (is_default (snd p) (g p)); [destruct He|]. destruct He as [<-|[]]. cbn [fst].
+      apply existsb_exists. exists p. split; [exact Hp|apply str_eqb_refl].
+    Qed.
+  End InitHash.
+
+  Theorem struct_object_init_hash a n fs vs :
+    has_type (GVStruct vs) (GStruct n fs) = true -> obj_ok fs vs = true -> defaults_ok fs = true ->
+    NoDup (obj_attr_names fs) ->
+    obj_new_hash n fs (obj_init_hash ffmt a fs vs) = Ok (VObj n true (GVStruct vs)).
+  Proof.
+    intros Ht Hok Hd Hnd. destruct (obj_new_full_steps a n fs vs Ht Hok) as [Ha Hs].
+    set (g := fun p : nat * gfield => set_addr a (wrap_reflected ffmt (f_ty (snd p)) (nth (fst p) vs GVOutside))).
+    assert (Hg : forall p, In p (attr_order fs) ->
+              hash_get (attr_name (snd p)) (obj_init_hash ffmt a fs vs) = if is_default (snd p) (g p) then None else Some (g p)).
+    { intros p Hp. exact (hash_get_flat_map g (attr_order fs) Hnd p Hp). }
+    assert (Hinst : forall p, In p (attr_order fs) -> inst (attr_ty (snd p)) (g p) = true).
+    { clear - Ha. unfold obj_gets in Ha. fold g in Ha. revert Ha. generalize (attr_order fs) as l.
+      induction l as [|q l IH]; intros Ha p Hp; [destruct Hp|]. cbn [map args_ok] in Ha.
+      apply andb_true_iff in Ha as [H1 H2]. destruct Hp as [<-|Hp]; [exact H1|]. apply IH; assumption. }
+    unfold obj_new_hash.
+    assert (Hok' : init_hash_ok (attr_order fs) (obj_init_hash ffmt a fs vs) = true).
+    { unfold init_hash_ok. apply andb_true_iff. split.
+      - apply forallb_forall. intros p Hp. rewrite (Hg p Hp).
+        destruct (is_default (snd p) (g p)) eqn:Ed; [|apply Hinst; exact Hp].
+        rewrite attr_has_value_default. unfold is_default in Ed. destruct (attr_default (snd p)); [reflexivity|discriminate Ed].
+      - exact (init_hash_keys g (attr_order fs)). }
+    rewrite Hok'. unfold positional_from_hash.
+    assert (Hmap : map (fun p => match hash_get (attr_name (snd p)) (obj_init_hash ffmt a fs vs) with
+                                 | Some v => v
+                                 | None => default_or_undef (snd p)
+                                 end) (attr_order fs) = obj_gets ffmt a fs vs).
+    { unfold obj_gets. fold g. apply map_ext_in. intros p Hp. rewrite (Hg p Hp).
+      destruct (is_default (snd p) (g p)) eqn:Ed; [|reflexivity].
+      symmetry. apply (is_default_eq fs); [exact Hd|apply attr_order_field; exact Hp|exact Ed]. }
+    rewrite Hmap. rewrite set_values_cut; [rewrite Hs; reflexivity| |unfold obj_gets; apply map_length].
+    intros p v Hp. apply (is_default_eq fs); [exact Hd|]. apply attr_order_field. exact Hp.
   Qed.
 End ObjectRoundTrip.
